@@ -171,6 +171,20 @@ var c01Tampers = []c01Tamper{
 		e.Pubkey = k.Pub
 		return true
 	}},
+	{"pubkey-other-spelling", func(r *rand.Rand, e *mocrelay.Event, _ []vk.Key) bool {
+		// the same key bytes spelled with (some) upper-case hex digits: the serialisation
+		// contains the pubkey as written, so the id no longer fits
+		b := []byte(e.Pubkey)
+		changed := false
+		for i, c := range b {
+			if c >= 'a' && c <= 'f' && (r.IntN(2) == 0 || !changed) {
+				b[i] = c - 'a' + 'A'
+				changed = true
+			}
+		}
+		e.Pubkey = string(b)
+		return changed
+	}},
 	{"pubkey-nibble", func(r *rand.Rand, e *mocrelay.Event, _ []vk.Key) bool {
 		e.Pubkey = bumpNibble(e.Pubkey, r.IntN(64))
 		return true
@@ -246,7 +260,7 @@ func c01WrongForms(e *mocrelay.Event) map[string][]byte {
 
 func TestVerif_C01(t *testing.T) {
 	rep := vk.NewReport(t, "C01", "exploration")
-	rep.Rule = "freshly signed events (32 fixed + seeded keys, every kind class, boundary created_at, 0-8 tags of 0-5 elements, hostile content and tag values, a complete sweep of U+0000..U+FFFF minus surrogates and 4096 astral samples), each with sampled tamperings from a 25-entry catalogue, ids/signatures with a 00 byte at either end cut off or padded and wrong-canonicalisation forgeries; oracle = reference canonical form + SHA-256 + independent BIP-340 verifier; non-trivial = the event contains a character some JSON encoder escapes or any non-ASCII character, or is a tampering/forgery; distinct = distinct (event id, tamper class)"
+	rep.Rule = "freshly signed events (32 fixed + seeded keys, every kind class, boundary created_at, 0-8 tags of 0-5 elements, hostile content and tag values, a complete sweep of U+0000..U+FFFF minus surrogates and 4096 astral samples), 1300/4200 distinct authors in one process (re-checked afterwards, with cross-signed forgeries), each event with sampled tamperings from a 26-entry catalogue, ids/signatures with a 00 byte at either end cut off or padded and wrong-canonicalisation forgeries; oracle = reference canonical form + SHA-256 + independent BIP-340 verifier; non-trivial = the event contains a character some JSON encoder escapes or any non-ASCII character, or is a tampering/forgery; distinct = distinct (event id, tamper class)"
 	rep.Assume("the independent BIP-340 verifier passed the official test vectors at start-up")
 	defer rep.Finish()
 
@@ -441,6 +455,43 @@ func TestVerif_C01(t *testing.T) {
 		rep.Count("code_points_swept", int64(len(blocks[i])))
 	})
 	_ = swept
+
+	// (2a) many authors in one process: more distinct signing keys than any table of parsed
+	// keys is likely to hold; afterwards the first authors' events are checked again, and an
+	// event carrying an early author's pubkey under a late author's signature is a forgery
+	nAuthors := vk.N(1300, 4200)
+	{
+		r := vk.RNG("C01/authors", 0)
+		authors := make([]vk.Key, nAuthors)
+		evs := make([]*mocrelay.Event, nAuthors)
+		for i := range authors {
+			authors[i] = vk.KeyFromRNG(r)
+			evs[i] = c01Event(r, fmt.Sprintf("author %d", i))
+			vk.Sign(authors[i], evs[i])
+			rep.Eval(1)
+			if !c01Reported(evs[i]) {
+				rep.Violation("verify/rejects-authentic/many-authors", fmt.Sprintf("a correctly signed event of the %d-th distinct author of this process is reported not authentic", i+1), map[string]any{"event": evs[i]})
+				break
+			}
+		}
+		for i := 0; i < nAuthors && rep.Violations() == 0; i += 1 + i/64 {
+			rep.Eval(2)
+			if !c01Reported(evs[i]) {
+				rep.Violation("verify/rejects-authentic/many-authors", fmt.Sprintf("the event of author %d, authentic when first checked, is reported not authentic after %d distinct authors were seen", i, nAuthors), map[string]any{"event": evs[i]})
+				break
+			}
+			// author i's pubkey, content and id, signed by a late author
+			j := nAuthors - 1 - i%200
+			f := vk.CloneEvent(evs[i])
+			idb, _ := hex.DecodeString(f.ID)
+			f.Sig = vk.SignHash(authors[j], idb)
+			if j != i && c01Reported(f) {
+				rep.Violation("verify/accepts-forgery/foreign-signature-after-many-authors", fmt.Sprintf("an event with author %d's pubkey and a signature made with author %d's key is reported authentic", i, j), map[string]any{"event": f})
+				break
+			}
+		}
+		rep.Count("distinct_authors_in_one_process", int64(nAuthors))
+	}
 
 	// (2b) hex strings of the wrong length: ids and signatures whose last (or first) byte is 00
 	// are ground out, then that byte is cut off, or a 00 byte is added: never authentic
